@@ -427,6 +427,35 @@ def r06_11(run, model):
     run.floor("type switches that rebind their scrutinee", n, 2)
 
 
+def r06_13(run, model):
+    run.rule("R06.13", "a pattern is matched the way it is written whatever is in scope: whether an identifier pattern is a constructor or a "
+                       "binder is decided from the constructors alone - no arm of resolve_pat is selected by looking the name up among the "
+                       "local binders (a parameter named like a variant must not turn `X => ..` into a catch-all)")
+    NR = "crates/compiler/src/typer/name_resolution.rs"
+    f = model.fn("resolve_pat", NR)
+    lookups = {"rfind"}
+    for g in model.fns(NR):
+        if g.body is not None and g.name != "resolve_pat" and any(c["k"] == "MethodCall" and c["method"] == "rfind" for c in S.walk(g.body)):
+            if any("ResolveLocalEnv" in (p["ty"] or "") for p in g.params() if not p["self"]):
+                lookups.add(g.name)
+    ms = list(S.find(f.body, "Match"))
+    if not ms:
+        raise AnalysisIncomplete("resolve_pat: match not found")
+    n = 0
+    for arm in ms[0]["arms"]:
+        g = arm.get("guard")
+        if g is None:
+            continue
+        n += 1
+        uses = [c for c in S.walk(g) if c["k"] in ("Call", "MethodCall") and S.callee_name(c) in lookups]
+        head = re.sub(r"\{.*", "", S.norm_ws(run.facts.text(NR, arm["pat"]["sp"])))
+        run.ob("R06.13", f"resolve_pat|{head} arm #{n}: selected without consulting the local binders", not uses, site(NR, arm["sp"]),
+               f"guard: {S.norm_ws(run.facts.text(NR, g['sp']))[:90]}",
+               witness="enum Axis { X, Y } fn weight(X: int32, a: Axis) -> int32 { match a { X => 10, Y => 20 } }: the first arm becomes a binder, "
+                       "weight(1, Y) returns 10")
+    run.ob("R06.13", "resolve_pat|guards examined", True, site(NR, ms[0]["sp"]), f"{n} guarded arm(s)")
+
+
 def run(run, model):
     mir = Mir(run.facts)
     run.try_rule(r06_1, model, mir)
@@ -439,6 +468,11 @@ def run(run, model):
     run.try_rule(r06_9, model)
     run.try_rule(r06_10, model)
     run.try_rule(r06_11, model)
+    run.try_rule(r06_13, model)
+    from rules import c08
+    run.rule("R06.12", "the i-th sub-pattern of a constructor meets the i-th field: positional indices come from enumerate() over the whole "
+                       "collection, reversal after enumeration (shared with C08 R08.2, which also audits compile_match.rs)")
+    run.try_rule(c08.r08_2, model)
     from rules import c01
     run.try_rule(c01.r01_5, model, ("crates/compiler/src/compile_match.rs",))
     run.assume("tast_builder::build_pat and compile_struct_case read struct-pattern arguments positionally in declaration order (read and confirmed)")
